@@ -112,6 +112,10 @@ def main():
         # the same site after a renaming of locals: same file, function, kind and the same expression up to the names of its locals,
         # each keeping its kind (set-typed or not) -- `norm` is recorded next to the text of every listed site (setscan --write-norms)
         allowed_norm = {x['norm']: x for x in listed if x.get('norm')}
+        # ... or up to naming / un-naming a sub-expression and moving a construction into a private helper that is only called from its
+        # own module: `norm2` = the normal form after replacing single-assignment locals (used as plain values) by their defining
+        # expression and calls of such helpers by the helper's result expression (pyvc/setscan.py: Site, Helper)
+        allowed_norm2 = {x['norm2']: x for x in listed if x.get('norm2')}
         sites, nfiles = setscan.scan_repo(REPO)
         order_scan = {'files': nfiles, 'sites': []}
         for st_ in sites:
@@ -125,6 +129,11 @@ def main():
                 per_backend['syntactic-scan'] = per_backend.get('syntactic-scan', 0) + 1
                 order_scan['sites'].append({'site': st_.key(), 'discharged_by': allowed_norm[st_.norm_key()]['discharged_by'],
                                             'listed_as': allowed_norm[st_.norm_key()]['site']})
+            elif st_.norm2_key() in allowed_norm2:
+                discharged += 1
+                per_backend['syntactic-scan'] = per_backend.get('syntactic-scan', 0) + 1
+                order_scan['sites'].append({'site': st_.key(), 'discharged_by': allowed_norm2[st_.norm2_key()]['discharged_by'],
+                                            'listed_as': allowed_norm2[st_.norm2_key()]['site']})
             else:
                 failed_obls.append(('order-scan', 'order-indep@' + st_.key(), 'ungenerated',
                                     'a set-typed value is iterated, converted, rendered, merged or escapes at a site that is not on the allowlist'))
